@@ -1,9 +1,11 @@
 import Driver.Ops
+import Driver.VMDrv
 open Driver
 
 def dispatch (line : String) : String :=
   match line.splitOn "\t" with
   | "ops" :: args => handleOps args
+  | "vm" :: args => handleVM args
   | _ => "bad-op"
 
 partial def loop (h : IO.FS.Stream) (out : IO.FS.Stream) : IO Unit := do
